@@ -131,6 +131,7 @@ fn main() {
             for s in &m { for (_, d) in &ds { if let G::Val(Ok(v)) = parse(d.as_ref(), Opts::DEFAULT, s) { if !v.is_empty() { acc += 1; } } } }
             println!("mutants={} accepted_pairs={} secs={:.1}", m.len(), acc, t0.elapsed().as_secs_f64());
         }
+        Some("gen-sql") => { for t in gen_sql::enumerate() { println!("{}", t.replace('\n', "\\n").replace('\t', "\\t")); } }
         Some("corpus-stats") => {
             let c = load_corpus();
             println!("literals={} accepted_pairs={}", c.literals.len(), c.accepted.len());
